@@ -4,6 +4,7 @@ from trie.exceptions import NodeOverrideError
 
 from .core import HarnessError, Violation, unhx
 from .models.binref import BLANK_HASH, RefBin
+from .hworld import in_handler
 from .simdb import InjectedStorageError, SimDB
 
 
@@ -45,7 +46,7 @@ class BWorld:
             fn = getattr(self, "op_" + cmd["op"], None)
             if fn is None:
                 raise HarnessError(f"unknown command {cmd!r}")
-            out = fn(cmd)
+            out = in_handler(fn, cmd) if cmd.get("hdl") else fn(cmd)
             self.st.rec(self.ev, cmd["op"], out, self.trie.root_hash, len(self.db.raw()), self.fired)
             self.st.sched_rec(cmd["op"], out, self.fired)
             self.st.state(self.trie.root_hash)
